@@ -7,6 +7,21 @@ PROPS = {
         ops=[dict(op="proj", quick=20000, thorough=1000000), dict(op="scan", quick=20000, thorough=1000000)],
         assumptions=["Go runtime stack/memory limits are outside the model; worker processes observe them"],
     ),
+    "C07": dict(
+        module="JsightVerif.Props.C07",
+        ops=[dict(op="proj", quick=20000, thorough=500000), dict(op="name", quick=3000, thorough=0)],
+        assumptions=["bytes.Bytes.{LineAndColumn,BeginningOfLine,EndOfLine,NewLineSymbol} of jsight-schema-core are transliterated into the model and compared on every reported error"],
+    ),
+    "C14": dict(
+        module="JsightVerif.Props.C14",
+        ops=[dict(op="name", quick=6000, thorough=0), dict(op="proj", quick=10000, thorough=300000)],
+        assumptions=["path/filepath.Join/Dir/Clean and os.Stat/ReadFile are trusted; the model's cleanSegs is compared with them on every INCLUDE of every case"],
+    ),
+    "C11": dict(
+        module="JsightVerif.Props.C11",
+        ops=[dict(op="ctx", quick=8000, thorough=0), dict(op="proj", quick=10000, thorough=300000)],
+        assumptions=["reference context table = pinned transcription of the baseline table (no offline copy of the JSight 0.3 specification)"],
+    ),
     "C12": dict(
         module="JsightVerif.Props.C12",
         ops=[dict(op="scan", quick=40000, thorough=2000000)],
